@@ -5,8 +5,33 @@ from checklib.props import stm_common as sc
 from checklib.props import C01
 
 PID = "C06"
-BINS = sc.BINS
+BINS = sc.BINS + ["reserve"]
 setup = sc.setup
+
+
+def policy_stage(ctx, n):
+    """Blocks with the delegated-account policies enabled (EIP-7702 delegated accounts, sponsors, own
+    later transactions; harness/src/reserve): stock revm is no reference there, the reference is
+    grevm's own sequential path. The harness runs every block sequentially and 4-way parallel with the
+    policy on and reports `par=seq`."""
+    ok, out, bins = core.cargo_build(["reserve"])
+    if not ok:
+        raise RuntimeError("cargo build failed:\n" + out[-3000:])
+    d = os.path.join(ctx.work, "policy")
+    os.makedirs(d, exist_ok=True)
+    rc, out = core.sh([bins["reserve"], "e2e", str(ctx.seed + 63), str(n), d], timeout=2400)
+    if rc != 0:
+        raise RuntimeError("reserve e2e failed: " + out[-2000:])
+    cases = open(os.path.join(d, "e2e.in")).read().splitlines()
+    impl = open(os.path.join(d, "e2e.impl")).read().splitlines()
+    bad = []
+    charged = 0
+    for i, line in enumerate(impl):
+        toks = dict(t.split(":", 1) for t in line.split()[2:] if ":" in t)
+        if toks.get("par=seq", "1") != "1":
+            bad.append(dict(case=i, input=cases[i][:3000] if i < len(cases) else "", impl=line[:1500], what=toks["par=seq"][2:]))
+        charged += "1" in (line.split()[1][2:] if len(line.split()) > 1 else "")
+    return dict(cases=len(impl), disagreements=bad, blocks_with_a_charged_revert=charged)
 
 
 def run(ctx):
@@ -28,7 +53,16 @@ def run(ctx):
         f = sorted(glob.glob(os.path.join(d, "fail-*.txt")))[0]
         agg["oracle_mismatch"].append(dict(block_seed=re.findall(r"block_seed=(\d+)", open(f).read())[0], sched_seed="matrix", opts=["matrix"], file=f))
     agg["cases"] += int(m.group(1)) * 9
+    pol = policy_stage(ctx, 600 if ctx.quick else 12000)
+    agg["cases"] += pol["cases"] * 2
+    if pol["disagreements"] and not agg["oracle_mismatch"]:
+        w = pol["disagreements"][0]
+        ctx.violation("with the delegated-account reserve policy on, the parallel and the sequential path give different results for the same block",
+                      dict(witness=w, replay="target/release/reserve e2e %d %d <outdir>  (case %d)" % (ctx.seed + 63, pol["cases"], w["case"]), seed=ctx.seed), True)
     return C01.finish(ctx, PID, proof, agg, bins,
                       "the result depends on the configuration (workers / threshold / sequential mode / entry point) or on timing",
                       extra_cov=dict(config_matrix_blocks=int(m.group(1)), configs_per_block=9, paths_taken=paths,
-                                     blocks_where_configs_took_different_paths=multi))
+                                     blocks_where_configs_took_different_paths=multi,
+                                     policy_blocks=dict(cases=pol["cases"], parallel_vs_sequential_disagreements=len(pol["disagreements"]),
+                                                        blocks_with_a_charged_revert=pol["blocks_with_a_charged_revert"],
+                                                        rule="seeded EIP-7702 blocks with the reserve policy on, run through the public Scheduler sequentially and 4-way parallel; outcomes and final state compared with each other")))
